@@ -22,7 +22,7 @@ func init() {
 	register(core.Plan{
 		Property: "C07", Level: "exploration",
 		Parts: func(tier string) []core.Part {
-			return []core.Part{{Name: "bodies", Bin: "plain", Batches: 1, TimeoutS: 1500}, {Name: "helpers", Bin: "plain", Batches: 1, TimeoutS: 900}, {Name: "field-sweeps", Bin: "plain", Batches: 1, TimeoutS: 1500}}
+			return []core.Part{{Name: "bodies", Bin: "plain", Batches: 1, TimeoutS: 1500}, {Name: "helpers", Bin: "plain", Batches: 1, TimeoutS: 900}, {Name: "field-sweeps", Bin: "plain", Batches: 1, TimeoutS: 1500}, {Name: "zones", Bin: "plain", Batches: 1, TimeoutS: 900}}
 		},
 		Assumptions: []string{
 			"in-domain values per DESIGN Appendix D: fixed-width fields within width without trailing NUL (no leading NUL where the parser trims both sides), decimal BCD timestamps, GBK round-trippable text, length/count fields equal to their lists, same dialect on the parsing receiver",
@@ -30,7 +30,7 @@ func init() {
 			"0x1210/0x1211 file names have length >= 1; 0x0704 items carry the 28-byte base block only (its encoder emits no additional items)",
 			"T0x0104, T0x0002, P0x8104, P0x9003 have stub encoders (nil) and are not two-way types",
 		},
-	}, map[string]Worker{"bodies": c07Bodies, "helpers": c07Helpers, "field-sweeps": c07FieldSweeps})
+	}, map[string]Worker{"bodies": c07Bodies, "helpers": c07Helpers, "field-sweeps": c07FieldSweeps, "zones": c07Zones})
 }
 
 var canonSkip = map[string]bool{"AlarmSignDetails": true, "StatusSignDetails": true}
